@@ -266,7 +266,7 @@ func runC12(cfg *runCfg) (*Summary, error) {
 		maxLen, coqBudget = 6, 12000
 	}
 	sum := &Summary{Distribution: map[string]int{}, Exhaustive: true}
-	sum.Rule = fmt.Sprintf("every history of length 1..%d over the 8 register calls {RegisterDecoder(0|1, a|b), RegisterDecoderID(0|1), RegisterDecoderKey(a|b)}, each call with a fresh marker tree; after every call the lookup table DecodeByID(0,1,9,-1), Decode(a,b,z,\"-1\"), DecodeFallback(all 16 pairs) is observed through the exported API and compared with an abstract registry (valid histories) on the Go side; a seeded sample plus all replayed corpus histories is evaluated in the Coq model. distinct_nontrivial = valid histories that pair at least one id with a key and re-register afterwards", maxLen)
+	sum.Rule = fmt.Sprintf("every history of length 1..%d over the 8 register calls {RegisterDecoder(0|1, a|b), RegisterDecoderID(0|1), RegisterDecoderKey(a|b)}, each call with a fresh marker tree, plus variants in which a call passes the same tree as the previous call; after every call the lookup table DecodeByID(0,1,9,-1), Decode(a,b,z,\"-1\"), DecodeFallback(all 16 pairs) is observed through the exported API and compared with an abstract registry (valid histories) on the Go side; a seeded sample plus all replayed corpus histories is evaluated in the Coq model. distinct_nontrivial = valid histories that pair at least one id with a key and re-register afterwards", maxLen)
 	e := newRegEnv()
 	rng := newPRNG(cfg.seed)
 	var coqCases []string
@@ -287,8 +287,10 @@ func runC12(cfg *runCfg) (*Summary, error) {
 		{{Kind: "id", ID: 0}, {Kind: "key", Key: "a"}, {Kind: "both", ID: 0, Key: "a"}, {Kind: "key", Key: "a"}},
 	}
 	process := func(h []regCall, forceCoq bool) error {
-		for i := range h {
-			h[i].Mark = i + 1
+		if h[0].Mark == 0 {
+			for i := range h {
+				h[i].Mark = i + 1
+			}
 		}
 		obs, want, valid, err := runRegHistory(e, h)
 		if err != nil {
@@ -351,7 +353,35 @@ func runC12(cfg *runCfg) (*Summary, error) {
 	var rec func(h []regCall, l int) error
 	rec = func(h []regCall, l int) error {
 		if len(h) == l {
-			return process(append([]regCall(nil), h...), false)
+			if err := process(append([]regCall(nil), h...), false); err != nil {
+				return err
+			}
+			// the same history with trees reused: every pattern of "this call
+			// passes the tree of the previous call" (all patterns up to length 3,
+			// a seeded one for longer histories)
+			masks := []int{}
+			if l <= 3 {
+				for m := 1; m < 1<<(l-1); m++ {
+					masks = append(masks, m)
+				}
+			} else if rng.chance(1, 4) {
+				masks = append(masks, 1+rng.intn(1<<(l-1)-1))
+			}
+			for _, m := range masks {
+				hh := append([]regCall(nil), h...)
+				mark := 1
+				for i := range hh {
+					if i > 0 && m&(1<<(i-1)) == 0 {
+						mark++
+					}
+					hh[i].Mark = mark
+				}
+				sum.Distribution["with reused trees"]++
+				if err := process(hh, false); err != nil {
+					return err
+				}
+			}
+			return nil
 		}
 		for _, c := range regAlphabet {
 			if err := rec(append(h, c), l); err != nil {
